@@ -7,15 +7,15 @@ NOTE = ("Trusted: Coq 8.16.1 kernel; ExtrOcamlBasic extraction + OCaml glue; C++
 CLAIMS = {
  "C07": ("Coq theorems for all sizes/index patterns: the nine format conversions, copies, the three transposes (dimensions exchanged), sort, "
          "move_diag, remove_duplicates (drop of sums below 1e-16 only) and add/subtract preserve / transpose / add the represented operator `den`; "
-         "tie: extracted model vs C++ classes on generated chains of operations (per-line multisets) + dense image of the implementation's output.",
-         NOTE + "Distributed counterparts: compared through the dense image only (no theorem yet). Block formats not claimed.",
+         "BSR->CSR represents the sum of the stored blocks when the dropped scalars are exact zeros; tie: extracted model vs C++ classes on generated chains of operations (per-line multisets) + dense image of the implementation's output.",
+         NOTE + "Distributed counterparts: compared through the dense image only (no theorem yet). Block formats: BSR->CSR proved and tied; block transposes and BSC/BSR/BCOO inter-conversions exercised only through the block products of C02.",
          "Coq proof over Gallina model + model/implementation correspondence"),
  "C02": ("Coq theorems: every SpMV kernel (b=Ax, b+=Ax, b-=Ax, r=b-Ax, A^T variants) of COO/CSR/CSC equals the product with the represented operator for all "
          "matrices/vectors; distributed A x, b + A x, b - A x: each rank's rows equal the rows of the global operator gden applied to the global vector, for every list of rank "
          "states (any process count, any contiguous partition, empty ranks) and every package accepted by the forward check of C03; distributed A^T x = global transpose product "
-         "summed over all ranks' rows for every package accepted by the reverse check, independent of the previous content of b. Tie: extracted kernels and distributed model "
+         "summed over all ranks' rows for every package accepted by the reverse check, independent of the previous content of b; block kernels = scalar kernels of the expanded blocks. Tie: extracted kernels and distributed model "
          "(assembly with duplicates, package construction, exchange) vs the library on all formats, default/explicit/empty-rank partitions, tap on/off; dense reference; stale-output sentinel.",
-         NOTE + "Block formats not claimed. The package checks are discharged for the standard constructor by C03's construction theorem and checked on dumps otherwise.",
+         NOTE + "Block formats (BCOO/BSR/BSC): the kernels are proved for the row-major expansion of the blocks (with its denotation in terms of the blocks) and the expansion is what the correspondence compares with the library's block kernels; the distributed block products are not modelled. The package checks are discharged for the standard constructor by C03's construction theorem and checked on dumps otherwise.",
          "Coq proof over Gallina model + model/implementation correspondence"),
  "C03": ("Coq theorems about the package model (world of per-rank send/receive lists): forward exchange is natural in the payload, so one check on the vector of "
          "global ids (run by the extracted verified checker on the package dumped from the implementation on every run) implies that every vector/block/row payload "
